@@ -437,7 +437,7 @@ def finish(ctx, level="model_checking", checker_cmd=""):
         states=max(ctx.mc_states, 0),
         transitions=max(ctx.mc_transitions, 0),
         traces_validated_against_impl=ctx.validated,
-        samples=ctx.samples[:8] if ctx.samples else [],
+        samples=ctx.samples[:8] if ctx.samples else [f.get("sig", f) for f in ctx.failures[:3]] or [dict(note="no input was executed in this run")],
         evaluations=ctx.evaluations,
         distinct_nontrivial=ctx.nontrivial,
         rule=ctx.rule,
